@@ -508,6 +508,8 @@ def run(ctx):
     from .c03 import check_fchk_moment_order
 
     check_fchk_moment_order(ctx, "R23")
+    ctx.rule("R24", "XYZ with user-defined columns: every column written is read back into its own attribute / dictionary key (evaluated)", "two columns under one dictionary attribute: the second replaces the first, the written file cannot be read back")
+    check_xyz_columns(ctx, "R24")
     ctx.rule("R14", "formats read by splitting at white space are written with a literal separator between neighbouring fields", "for a large system a counter fills its field and touches its neighbour: the written line has fewer tokens and cannot be read back")
     with open(os.path.join(VERIF_DIR, "spec", "layouts.json")) as fh:
         column_formats = set(json.load(fh)) - {"_comment"}
@@ -842,3 +844,64 @@ def check_fcidump_integrals(ctx, rid):
         ctx.violate(rid, f"FCIDUMP integrals, {bad}", do, wloops[0], construct=f"fcidump integrals: {bad}"[:170])
     else:
         ctx.ok(rid, f"FCIDUMP: {len(lines)} symmetry-unique records written for 3 orbitals rebuild all {n ** 4} two-electron and {n * n} one-electron integrals", f"{do.module.relpath}:{wloops[0].lineno}")
+
+
+def check_xyz_columns(ctx, rid):
+    """The column-driven XYZ writer and reader, interpreted on a two-atom model object with a user-defined column list:
+    a scalar column, a vector column, two columns stored under the same dictionary attribute and one under another.
+    The lines the writer prints are fed to the reader (model LineIterator); every array must come back under its own
+    attribute / key with its own values."""
+    from ..accessors import AccessorEval, Raised, Rec, TextSink
+    from ..symarr import NotSymbolic
+
+    prog = ctx.prog
+    lo = prog.format_op("xyz", "load_one")
+    do = prog.format_op("xyz", "dump_one")
+    licls = prog.cls("iodata.utils.LineIterator")
+    iocls = prog.cls("iodata.iodata.IOData")
+    F = "<function>"
+    as_int = (F, lambda a, k: int(a[0]))
+    as_float = (F, lambda a, k: float(a[0]))
+    cols = [
+        ("atnums", None, (), int, as_int, (F, lambda a, k: f"{int(a[0]):3d}")),
+        ("atcoords", None, (3,), float, as_float, (F, lambda a, k: f"{float(a[0]):12.6f}")),
+        ("atcharges", "mulliken", (), float, as_float, (F, lambda a, k: f"{float(a[0]):8.4f}")),
+        ("atcharges", "esp", (), float, as_float, (F, lambda a, k: f"{float(a[0]):8.4f}")),
+        ("extra", "tag", (), int, as_int, (F, lambda a, k: f"{int(a[0]):d}")),
+    ]
+    want = {
+        ("atnums", None): np.array([8, 1]),
+        ("atcoords", None): np.array([[0.125, 0.25, 0.375], [1.125, 1.25, 1.375]]),
+        ("atcharges", "mulliken"): np.array([-0.5, 0.25]),
+        ("atcharges", "esp"): np.array([-0.75, 0.375]),
+        ("extra", "tag"): np.array([7, 9]),
+    }
+    f0 = {n: None for n in iocls.fields}
+    f0.update(atnums=want[("atnums", None)], atcoords=want[("atcoords", None)], title="T",
+              atcharges={"mulliken": want[("atcharges", "mulliken")], "esp": want[("atcharges", "esp")]}, extra={"tag": want[("extra", "tag")]})
+    sink = TextSink()
+    try:
+        ev = AccessorEval(prog, iocls, limit=20000)
+        ev.module = do.module
+        ev.run_free(do, [sink, Rec(iocls, **f0), cols], {})
+        lines = [ln + "\n" for ln in sink.text.split("\n") if ln != ""]
+        if len(lines) != 4:
+            ctx.violate(rid, f"xyz.dump_one writes {len(lines)} lines for two atoms with user-defined columns (count, title, one line per atom expected)", do, do.node, construct="xyz columns: line count")
+            return
+        lit = Rec(licls, filename="F", fh=iter(lines), lineno=0, stack=[])
+        ev = AccessorEval(prog, licls, limit=20000)
+        ev.module = lo.module
+        res = ev.run_free(lo, [lit, cols], {})
+    except Raised as exc:
+        ctx.violate(rid, f"XYZ with user-defined columns (two columns under `atcharges`): the file written by dump_one makes load_one raise {exc.args[0]}", lo, lo.node, construct="xyz columns: raises")
+        return
+    except NotSymbolic as exc:
+        raise AnalysisError(f"xyz.dump_one / load_one are outside the evaluation whitelist: {exc}") from exc
+    for (attr, key), w in want.items():
+        got = res.get(attr) if isinstance(res, dict) else None
+        if key is not None:
+            got = got.get(key) if isinstance(got, dict) else None
+        if got is None or np.asarray(got).shape != w.shape or np.abs(np.asarray(got, dtype=float) - w).max() > 1e-9:
+            ctx.violate(rid, f"XYZ with user-defined columns: `{attr}`" + (f"['{key}']" if key else "") + f" is written as {w.tolist()} and read back as {np.asarray(got).tolist() if got is not None else None}", lo, lo.node, construct=f"xyz columns: {attr} {key}")
+            return
+    ctx.ok(rid, "xyz: scalar, vector and dictionary columns (two under one attribute) written by dump_one come back from load_one under their own attribute / key", f"{lo.module.relpath}:{lo.lineno}")
